@@ -67,35 +67,148 @@ def collect():
                                 raise TranslatorError(f'{item.name}.{nm}: default {v!r} is not an int')
                             vals.append((nm, v))
                         defaults.append((item.name, vals))
-    keep = []
+    keep = collect_keep()
+    return methods, keep, defaults
+
+
+def _const_strings(node, env, where):
+    """string constants denoted by an expression used as the right operand of `k in <expr>`: literal tuple/list/set,
+    set()/frozenset()/tuple()/list() of such, `+` / `|` combinations, and names bound to such at module or class level"""
+    if isinstance(node, (ast.Tuple, ast.List, ast.Set)):
+        out = []
+        for e in node.elts:
+            if isinstance(e, ast.Constant) and isinstance(e.value, str):
+                out.append(e.value)
+            elif isinstance(e, ast.Starred):
+                out += _const_strings(e.value, env, where)
+            else:
+                raise TranslatorError(f'{where}: keep-list element is not a string literal: {ast.dump(e)[:80]}')
+        return out
+    if isinstance(node, ast.Call) and isinstance(node.func, ast.Name) and node.func.id in ('set', 'frozenset', 'tuple', 'list') \
+            and len(node.args) == 1 and not node.keywords:
+        return _const_strings(node.args[0], env, where)
+    if isinstance(node, ast.BinOp) and isinstance(node.op, (ast.Add, ast.BitOr)):
+        return _const_strings(node.left, env, where) + _const_strings(node.right, env, where)
+    if isinstance(node, ast.Name):
+        if node.id not in env:
+            raise TranslatorError(f'{where}: keep test against `{node.id}`, which is not a module/class level constant collection')
+        return _const_strings(env[node.id], env, where + '/' + node.id)
+    if isinstance(node, ast.Attribute) and isinstance(node.value, ast.Name) and node.value.id in ('self', 'cls', 'MoleculeContainer'):
+        if node.attr not in env:
+            raise TranslatorError(f'{where}: keep test against `{node.value.id}.{node.attr}`, not a class level constant collection')
+        return _const_strings(env[node.attr], env, where + '/' + node.attr)
+    raise TranslatorError(f'{where}: cannot resolve the collection of a keep test: {ast.dump(node)[:120]}')
+
+
+def collect_keep():
+    """the `__dict__` keys that survive MoleculeContainer.flush_cache(keep_*) or are carried over by copy(keep_*):
+    every string constant inside the two functions, plus the members of every collection a `<key> in <collection>` /
+    `<collection>.__contains__` test refers to (names resolved at module and class level; unresolvable -> TranslatorError)"""
     tree = ast.parse((REPO / 'chython/containers/molecule.py').read_text())
-    found = set()
+    env = {}
+    cls = None
     for node in tree.body:
-        if isinstance(node, ast.ClassDef) and node.name == 'MoleculeContainer':
-            for item in node.body:
-                if isinstance(item, ast.FunctionDef) and item.name in ('flush_cache', 'copy'):
-                    found.add(item.name)
-                    body = item.body
-                    if body and isinstance(body[0], ast.Expr) and isinstance(body[0].value, ast.Constant):
-                        body = body[1:]  # docstring
-                    for st in body:
-                        for c in ast.walk(st):
-                            if isinstance(c, ast.Constant) and isinstance(c.value, str) and c.value not in keep:
-                                keep.append(c.value)
+        if isinstance(node, ast.Assign) and len(node.targets) == 1 and isinstance(node.targets[0], ast.Name):
+            env[node.targets[0].id] = node.value
+        elif isinstance(node, ast.AnnAssign) and isinstance(node.target, ast.Name) and node.value is not None:
+            env[node.target.id] = node.value
+        elif isinstance(node, ast.ClassDef) and node.name == 'MoleculeContainer':
+            cls = node
+    if cls is None:
+        raise TranslatorError('class MoleculeContainer not found')
+    for item in cls.body:
+        if isinstance(item, ast.Assign) and len(item.targets) == 1 and isinstance(item.targets[0], ast.Name):
+            env[item.targets[0].id] = item.value
+    keep, found = [], set()
+
+    def add(k):
+        if k not in keep:
+            keep.append(k)
+    for item in cls.body:
+        if isinstance(item, ast.FunctionDef) and item.name in ('flush_cache', 'copy'):
+            found.add(item.name)
+            body = item.body
+            if body and isinstance(body[0], ast.Expr) and isinstance(body[0].value, ast.Constant):
+                body = body[1:]  # docstring
+            for st in body:
+                for c in ast.walk(st):
+                    if isinstance(c, ast.Constant) and isinstance(c.value, str):
+                        add(c.value)
+                    elif isinstance(c, ast.Compare):
+                        for op, right in zip(c.ops, c.comparators):
+                            if isinstance(op, (ast.In, ast.NotIn)):
+                                if isinstance(right, ast.Attribute) and right.attr == '__dict__':
+                                    continue   # `'key' in self.__dict__`: the key is the (already collected) left literal
+                                for k in _const_strings(right, env, f'MoleculeContainer.{item.name}'):
+                                    add(k)
+                    elif isinstance(c, ast.Call) and isinstance(c.func, ast.Name) and c.func.id not in ('super', 'set', 'frozenset',
+                                                                                                         'tuple', 'list', 'dict', 'len'):
+                        raise TranslatorError(f'MoleculeContainer.{item.name} calls the helper `{c.func.id}` — keep logic may have moved')
+                    elif isinstance(c, ast.Call) and isinstance(c.func, ast.Attribute) and c.func.attr in ('__contains__', 'issubset',
+                                                                                                           'intersection', 'startswith',
+                                                                                                           'endswith', 'match'):
+                        raise TranslatorError(f'MoleculeContainer.{item.name}: keep test by `{c.func.attr}` is not understood')
     if found != {'flush_cache', 'copy'}:
         raise TranslatorError(f'MoleculeContainer.flush_cache/copy not found: {found}')
-    return methods, keep, defaults
+    return keep
+
+
+LIVE_ENTRY_POINTS = [('_atom_identifiers', None), ('_chains', (1, 3)), ('_fragments', (1, 3)), ('linear_hash_set', (1, 3, 2)),
+                     ('linear_bit_set', (1, 3, 64, 2, 2)), ('linear_fingerprint', (1, 3, 64, 2, 2)), ('_morgan_hash_dict', (1, 3)),
+                     ('morgan_hash_set', (1, 3)), ('morgan_bit_set', (1, 3, 64, 2)), ('morgan_fingerprint', (1, 3, 64, 2))]
+
+
+def live_cache_keys():
+    """the `__dict__` keys that calling the modelled fingerprint entry points leaves on a live molecule (observed, not derived)"""
+    from chython import smiles
+    keys = []
+    for smi in ('CCO', 'c1ccccc1N'):
+        mol = smiles(smi)
+        before = set(mol.__dict__)
+        for name, args in LIVE_ENTRY_POINTS:
+            if args is None:
+                getattr(mol, name)
+            else:
+                getattr(mol, name)(*args)
+        for k in sorted(set(mol.__dict__) - before):
+            if k not in keys:
+                keys.append(k)
+    return keys
+
+
+def derived_cache_keys(methods):
+    out = []
+    for cls, name, decs in methods:
+        if 'cached_property' in decs or 'class_cached_property' in decs:
+            out.append(f'_{cls}{name}' if name.startswith('__') and not name.endswith('__') else name)
+        if 'cached_method' in decs:
+            out.append('__cached_method_' + name)
+        if 'cached_args_method' in decs:
+            out.append('__cached_args_method_' + name)
+    return out
 
 
 def generate():
     methods, keep, defaults = collect()
+    live = live_cache_keys()
+    # the key derivation used by the theorem must agree with what CachedMethods really does on the live object
+    modelled = {n for n, _ in LIVE_ENTRY_POINTS}
+    for cls, name, decs in methods:
+        if name in modelled and cls in ('LinearFingerprint', 'MorganFingerprint', 'Fingerprints'):
+            for k in derived_cache_keys([(cls, name, decs)]):
+                if k not in live:
+                    raise TranslatorError(f'{cls}.{name} is decorated {decs} but its expected cache key {k!r} did not appear in '
+                                          f'mol.__dict__ ({live}) — cache-key derivation out of date')
     lines = ['/-! GENERATED by harness/gen/gen_c17.py from chython/algorithms/fingerprints/*.py and containers/molecule.py — do not edit. -/',
              'namespace ChythonModel.Gen.C17', '',
              '/-- (class, method, decorator names) of every method in the three fingerprint files -/',
              'def fingerprintMethods : List (String × String × List String) := [']
     lines.append(',\n'.join(f'  ({lean_str(c)}, {lean_str(m)}, [{", ".join(lean_str(d) for d in ds)}])' for c, m, ds in methods))
-    lines += [']', '', '/-- string literals of `MoleculeContainer.flush_cache` and `MoleculeContainer.copy`: the `__dict__` keys kept -/',
+    lines += [']', '', '/-- the `__dict__` keys kept by `MoleculeContainer.flush_cache(keep_*)` / carried over by `copy(keep_*)`: string literals of',
+              '    the two functions and the members of every (module/class level) collection their membership tests refer to -/',
               'def keepKeys : List String := [' + ', '.join(lean_str(k) for k in keep) + ']', '',
+              '/-- OBSERVED: `__dict__` keys left on a live molecule by calling the modelled fingerprint entry points -/',
+              'def liveCacheKeys : List String := [' + ', '.join(lean_str(k) for k in live) + ']', '',
               '/-- default parameter values (method, [(parameter, value)]) -/',
               'def defaults : List (String × List (String × Int)) := [']
     lines.append(',\n'.join(f'  ({lean_str(m)}, [{", ".join(f"({lean_str(n)}, {v})" for n, v in vs)}])' for m, vs in defaults))
